@@ -396,9 +396,9 @@ def configs_for(tier: str):
 def run(tier: str, only=None) -> core.Result:
     res = core.Result("C16", "fault_enumeration")
     base, timing = configs_for(tier)
-    out = explorer.explore(RUN, base)
+    out = explorer.explore(RUN, base, fidelity=True)
     sched.absorb(res, "virtual-matrix", RUN, out, base)
-    out = explorer.explore(RUN, timing)
+    out = explorer.explore(RUN, timing, fidelity=True)
     sched.absorb(res, "virtual-grace-boundaries", RUN, out, timing)
     of = [{"error": e} for e in ("fnf", "perm", "os")]
     out = explorer.explore(RUN_OPEN, of, workers=1)
